@@ -22,7 +22,9 @@ package nut14
 //@ func AddWitnessHTLC
 //@   tags C13
 //@   safety C06 C13
+//@   calls schnorr.Sign asserts @message [C13] bytes(hash) == sha256(bytesOf(proof.Secret)) && privKey == signingKey
 
 //@ func AddWitnessHTLCToOutputs
 //@   tags C13
 //@   safety C06 C13
+//@   calls schnorr.Sign asserts @message [C13] hexok(output.B_) && bytes(hash) == sha256(hexdec(output.B_)) && privKey == signingKey
